@@ -57,6 +57,10 @@ type FuncContract struct {
 	Notes     []string
 	Bounded   string
 	Opaque    []string // callee names whose contract is ignored (havoc)
+	// ReadsGlobals: a frame condition on READS. When set, the function body (closures excluded) may mention only the
+	// listed package-level variables; any other is reported. "readsglobals" alone allows none.
+	ReadsGlobalsSet bool
+	ReadsGlobals    []string
 	Timeout   int
 	Uses      []string
 }
@@ -110,7 +114,7 @@ func newContractSet() *ContractSet {
 
 var blockKw = map[string]bool{"frame": true, "func": true, "spec": true, "pred": true, "lemma": true, "axiom": true, "atomic": true, "recspec": true, "uninterp": true}
 var clauseKw = map[string]bool{"requires": true, "ensures": true, "modifies": true, "loop": true, "assert": true, "possible": true,
-	"assume": true, "arith": true, "nopanic": true, "trusted": true, "abstract": true, "note": true, "nosafety": true, "params": true, "bounded": true, "opaque": true, "timeout": true, "uses": true}
+	"assume": true, "arith": true, "nopanic": true, "trusted": true, "abstract": true, "note": true, "nosafety": true, "params": true, "bounded": true, "opaque": true, "timeout": true, "uses": true, "readsglobals": true}
 
 type rawLine struct {
 	text string
@@ -380,6 +384,9 @@ func (cs *ContractSet) parseBlock(b []rawLine, file, pkg string) error {
 				fc.Bounded = arg
 			case "opaque":
 				fc.Opaque = append(fc.Opaque, strings.Fields(arg)...)
+			case "readsglobals":
+				fc.ReadsGlobalsSet = true
+				fc.ReadsGlobals = append(fc.ReadsGlobals, strings.Fields(arg)...)
 			case "timeout":
 				fc.Timeout, _ = strconv.Atoi(arg)
 			case "uses":
